@@ -218,11 +218,68 @@ def r4(ctx):
                 distinct_keys=list(FORMAT_UNITS) + list(want), sample={"units": {k: v[:2] for k, v in t.items()}, "flags": flags})
 
 
+
+HUMANSIZE_UNITS = ["B", "kB", "MB", "GB", "TB", "PB", "EB", "KiB", "MiB", "GiB", "TiB", "PiB", "EiB"]   # humansize 2.1.3 scales.rs, up to u64::MAX
+
+
+def r5(ctx):
+    """the unit text after format_filesize's rewriting: `kB` is shown as `KB`; with the short-unit flag `s` every unit is
+    its first letter (K, M, G, ...) whatever the base.  The rewriting statements are evaluated, in source order, on every
+    unit string humansize can produce."""
+    import interp
+    hir = ctx.anchor_hir(FORMAT_FILESIZE)
+    top = hir["stmts"] + ([hir["expr"]] if "expr" in hir else [])
+    idx = [i for i, st in enumerate(top) if any(c["k"] == "Call" and str(c.get("callee", "")).endswith("humansize::format_size") or
+                                                 (c["k"] == "Call" and "format_size" in render(c["f"])) for c in walk_exprs(st))]
+    if len(idx) != 1:
+        ctx.violation("anchor/format-call", ctx.where(FORMAT_FILESIZE), "the humansize::format_size call of format_filesize was not found exactly once")
+        raise Abort()
+    tail = top[idx[0]:]
+    defined = set()
+    for st in tail:
+        for x in walk(st):
+            if x["k"] == "Bind":
+                defined.add(x["id"])
+    free = {}
+    for st in tail:
+        for x in walk_exprs(st):
+            if x["k"] == "Path" and x.get("rk") == "Local" and x["res"] not in defined:
+                free[x["res"]] = x["name"]
+    n = 0
+    for short_flag in (False, True):
+        for unit in HUMANSIZE_UNITS:
+            def call(node, recv, args, it, env, unit=unit):
+                if node["k"] == "Call" and "format_size" in render(node["f"]):
+                    return ("1.5 " + unit,)
+                if node["k"] == "MCall" and node["m"] == "replace" and isinstance(recv, str) and all(isinstance(a, str) for a in args):
+                    return (recv.replace(args[0], args[1]),)
+                return None
+            env = {i: (short_flag if nm == "short_units" else interp.Opaque(nm)) for i, nm in free.items()}
+            it = interp.Interp(call=call)
+            try:
+                res = None
+                for st in tail:
+                    res = it.run(st, env) if st is not tail[-1] else it.run(st, env)
+            except interp.Undecided as e:
+                ctx.violation("format-suffix/undecided", ctx.where(FORMAT_FILESIZE), "cannot evaluate the unit rewriting of format_filesize: %s" % e)
+                return
+            want = "1.5 " + (unit[0].upper() if short_flag and unit != "B" else "KB" if unit == "kB" else unit)
+            n += 1
+            ok = res == want
+            ctx.obligation(ok)
+            if not ok:
+                ctx.violation("format-suffix/%s/%s" % ("short" if short_flag else "long", unit), ctx.where(FORMAT_FILESIZE, tail[0]),
+                              "a size that humansize renders as `1.5 %s` is shown as `%s`%s, expected `%s`" %
+                              (unit, res, " with the short-unit flag `s`" if short_flag else "", want))
+    ctx.covered("unit rewriting of format_filesize evaluated on every humansize unit, with and without the short-unit flag", n,
+                distinct_keys=HUMANSIZE_UNITS, exhaustive=True)
+
 RULES = [
     ("C14-R1", "parse_filesize unit table equals the documented multipliers", r1),
     ("C14-R2", "ladder order: longer suffix is tested before its proper suffixes", r2),
     ("C14-R3", "numeric literal coercion falls back to parse_filesize", r3),
     ("C14-R4", "format_filesize unit / flag tables", r4),
+    ("C14-R5", "format_filesize unit rewriting (kB -> KB, short units) on every humansize unit", r5),
     ("C02-R1", "`size OP literal` is the numeric comparison [shared with C02]", lambda ctx: __import__("c02").r1(ctx)),
 ]
 
@@ -232,7 +289,8 @@ EXPLANATION = (
     "documented unit table (k/kib/kb ... t/tib/tb, b); ladder order is checked for every suffix-of pair; "
     "Variant::to_int/to_float fall back to parse_filesize; format_filesize's unit arms map to the documented "
     "humansize FixedAt/base pair, unknown modifiers end in error_exit, and the flag letters c/d/s set their flags. "
-    "humansize's rendering, monotonicity and round trip are produced by a third-party crate and are not decided.")
+    "humansize's rendering, monotonicity and round trip are produced by a third-party crate and are not decided."
+    ' The unit-rewriting statements of format_filesize are evaluated on every unit humansize can emit, with and without the short-unit flag.')
 ASSUMPTIONS = ["rustc's HIR faithfully represents the source; exporter and rule scripts are correct",
                "f64 products of the literal multipliers are exact for these magnitudes"]
 NOT_DECIDED = ["humansize's rendering, monotonicity in the size, round trip of rendered text",
